@@ -189,6 +189,7 @@ fn rand_plain<const N: usize>(cx: &mut Cx, iters: usize) {
         if it % 5 == 0 { wd = vec![0; N]; }
         let st = words_bytes(&wd);
         cx.call(Ev::new("rand", "uint.random").i("bits", 64 * N as i64).b("st", &st).s("w", "plain"), || { let mut s = Script::new(st.clone()); let v = Uint::<N>::random(&mut Inf(&mut s)); O::ok().n("v", &w(&v)).i("c", s.pos as i64) });
+        cx.call(Ev::new("rand", "wrapping.random").i("bits", 64 * N as i64).b("st", &st).s("w", "plain"), || { let mut s = Script::new(st.clone()); let v = vh::cb::Wrapping::<Uint<N>>::random(&mut Inf(&mut s)); O::ok().n("v", &w(&v.0)).i("c", s.pos as i64) });
         cx.call(Ev::new("rand", "int.random").i("bits", 64 * N as i64).b("st", &st).s("w", "plain"), || { let mut s = Script::new(st.clone()); let v = Int::<N>::random(&mut Inf(&mut s)); O::ok().n("v", &wi(&v)).i("c", s.pos as i64) });
         cx.call(Ev::new("rand", "odd.random").i("bits", 64 * N as i64).b("st", &st).s("w", "odd"), || { let mut s = Script::new(st.clone()); let v = Odd::<Uint<N>>::random(&mut Inf(&mut s)); O::ok().n("v", &w(&v.get())).i("c", s.pos as i64) });
         // NonZero: leading all-zero samples are rejected
